@@ -105,7 +105,7 @@ Lemma le64enc_spec_length x : length (le64enc_spec x) = 8%nat.
 Proof. reflexivity. Qed.
 
 Definition upd5 := c32_update T_md5x false 3 29 63 64.
-Definition fin5 := c32_final T_md5x le32enc_vect IV_md5 PAD_spec32 false 56 120 3 29 63 64.
+Definition fin5 (wipe : ctx32 -> ctx32) := c32_final T_md5x le32enc_vect PAD_spec32 false 56 120 3 29 63 64 wipe.
 Definition init5 := c32_init IV_md5 false.
 Definition buf5 := c32_buf_oneshot T_md5x le32enc_vect IV_md5 PAD_spec32 false 56 120 3 29 63 64.
 
@@ -113,31 +113,34 @@ Definition MD5_resume (st : list N) (bits : N) (buf d : list N) : list N :=
   le32enc_vect (md_resume r5_compress le64enc_spec st bits buf d).
 
 (* streaming from ANY well-formed context *)
-Theorem md5_resume_correct c parts : wf32 4 false c ->
-  fst (fin5 (fold_left upd5 parts c)) =
+Theorem md5_resume_correct wipe c parts : wf32 4 false c ->
+  fst (fin5 wipe (fold_left upd5 parts c)) =
   MD5_resume (c32_state c) (c32_count1 c * M32 + c32_count0 c) (c32_buf c) (concat parts).
 Proof.
   intros H. unfold fin5, upd5, MD5_resume.
   apply (md32_resume_correct T_md5x r5_compress 4 le32enc_vect le64enc_spec IV_md5 false
-           md5_enc le64enc_spec_length md5_transform_eq_compress r5_compress_length c parts H).
+           md5_enc le64enc_spec_length md5_transform_eq_compress r5_compress_length wipe c parts H).
 Qed.
 
 Lemma wf32_init5 : wf32 4 false init5.
 Proof. repeat split; try reflexivity. Qed.
 
 (* M3 for MD5 (RFC 1321 itself takes the bit length modulo 2^64: no length hypothesis) *)
-Theorem md5_streaming_correct parts :
-  fst (fin5 (fold_left upd5 parts init5)) = MD5_spec (concat parts).
+Theorem md5_streaming_correct wipe parts :
+  fst (fin5 wipe (fold_left upd5 parts init5)) = MD5_spec (concat parts).
 Proof. rewrite md5_resume_correct by apply wf32_init5. reflexivity. Qed.
 
 Theorem md5_oneshot_correct m : buf5 m = MD5_spec m.
 Proof.
-  unfold buf5, c32_buf_oneshot. fold fin5 init5.
+  unfold buf5, c32_buf_oneshot. fold (fin5 (fun c => c)) init5.
   change (c32_update T_md5x false 3 29 63 64 init5 m) with (fold_left upd5 [m] init5).
   rewrite md5_streaming_correct. cbn [concat]. rewrite app_nil_r. reflexivity.
 Qed.
 
-Theorem md5_final_zeroes_ctx c : c32_is_zero (snd (fin5 c)) = true.
+(* the digest does not depend on what Final does to the context afterwards *)
+Lemma fin5_fst wipe c : fst (fin5 wipe c) = fst (fin5 (fun c => c) c).
+Proof. reflexivity. Qed.
+Lemma fin5_snd wipe c : snd (fin5 wipe c) = wipe (snd (fin5 (fun c => c) c)).
 Proof. reflexivity. Qed.
 
 Lemma MD5_spec_length m : length (MD5_spec m) = 16%nat.
